@@ -38,6 +38,18 @@ CLAIMED = {
         "6 C17",
         TECH,
     ),
+    "C20": (
+        "Bounded solver-based check of Resources. E1 (CrossHair): constructor validity, combine_max over 1..4 operands, update, "
+        "with_defaults / maybe_with_defaults, from_dict(dict()) and to_slurm_options with optional *unbounded* integer quantities and "
+        "field-by-field purity snapshots. E2 (AST -> z3 interpreter of the real source): for all wall-time strings (2-4 fields, leading "
+        "field <= 3 digits) and all memory strings (<= 4 digits, optional <= 2 fraction digits, every unit pair in the thorough tier) "
+        "combine_max picks a maximal duration / size and never drops a set value; accepted / rejected string shapes decided as regex "
+        "inclusion / disjointness. One recorded finding (gpus=0 not mentioned by to_slurm_options) is pinned.",
+        "Trusted: z3, CrossHair path exhaustion and builtin models; E2 translator (validated on the repo's own test literals on every run), "
+        "floats as reals in memory sizes. Outside: callable resources, partition / extra_args merge order, longer digit strings.",
+        "6 C20",
+        TECH + "; AST-to-SMT translation of string kernels (z3 strings/regex)",
+    ),
 }
 
 NOT_APPLICABLE = {
